@@ -157,7 +157,7 @@ func verif_TransferConn(vm *Manager, name string, conn net.Conn) {
 func verifVCloseAll(v Visitor) bool { return verif.CalledWithInIter(evVClose, 0, v) }
 
 //verif:contract (*~/client/visitor.Manager).Close
-//verif:props C19 C14
+//verif:props C19 C14 C16
 func verif_VManager_Close(vm *Manager) {
 	verif.Requires(VerifManagerOK(vm), "manager_built")
 	verif.ResetEvents()
